@@ -248,10 +248,13 @@ def find_dispatch_loops(scope):
     """All dispatch loops directly inside ``scope`` (a FunctionDef or statement list holder)."""
     out = []
     for loop in find_all(scope, ast.For, nested=False):
-        names = target_names(loop.target)
-        if len(names) != 6 or not isinstance(loop.target, ast.Tuple):
+        target, it = loop.target, loop.iter
+        if isinstance(it, ast.Call) and isinstance(it.func, ast.Name) and it.func.id == 'zip' and it.args and not it.keywords \
+                and isinstance(target, ast.Tuple) and len(target.elts) == len(it.args) and isinstance(target.elts[0], ast.Tuple):
+            target, it = target.elts[0], it.args[0]      # for (op, o0, i0, ...), extra in zip(<ops>[:, :6], <a per-op table>): the op columns are the first component
+        names = target_names(target)
+        if len(names) != 6 or not isinstance(target, ast.Tuple):
             continue
-        it = loop.iter
         if not (isinstance(it, ast.Subscript) and (attr_chain(it.value) or '').split('.')[-1] == 'ops'):
             continue
         opvar, outvar, invars = names[0], names[1], names[2:]
@@ -289,6 +292,7 @@ def find_dispatch_loops(scope):
                 raise ModelError(f'dispatch chain line {test.lineno}: key is not a named constant: {norm(k)}')
             arms.append((cname.split('.')[-1], test, b))
         out.append(Dispatch(loop, opvar, outvar, invars, rebinding, chain_if, tail, arms, orelse))
+        out[-1].ops_iter = it        # the expression the op rows come from (first component of a zip)
     return out
 
 
